@@ -2972,6 +2972,13 @@ pub fn with_prelude(p: &Program) -> Program {
 /// two of loom's thread slots): yields while every other thread is blocked, spin loops, wait
 /// loops, locks, channels.
 pub fn prelude_bases(tier: &str) -> Vec<Program> {
+    yield_bases(tier).into_iter().map(|p| with_prelude(&p)).collect()
+}
+
+/// The same programs without the prelude (yields while the other thread is blocked, spin and
+/// wait loops, hand-overs after a yield): also used by C15, where a switch away from a thread
+/// that yielded earlier but is running again must still count as a pre-emption.
+pub fn yield_bases(tier: &str) -> Vec<Program> {
     let mut v: Vec<Program> = vec![];
     let o = Objs { atomics: vec![0, 0], mutexes: 1, notifies: 1, condvars: 1, chans: 1, ..Default::default() };
     let lk = || Op::from(K::Lock { m: 0 });
@@ -3005,7 +3012,10 @@ pub fn prelude_bases(tier: &str) -> Vec<Program> {
     v.extend(pick(spin_lock_family(tier).into_iter().filter(|p| p.threads.len() <= 3).collect(), n));
     v.extend(pick(a_sc(1, 2, 2, 4, false), n));
     v.extend(pick(wait_loop_family(false).into_iter().filter(|p| p.threads.len() <= 3).collect(), n));
-    v.into_iter().map(|p| with_prelude(&p)).collect()
+    // a thread that yields, then spawns a thread late and goes on
+    let o1 = Objs { atomics: vec![0, 0], ..Default::default() };
+    v.push(Program { name: "PRE-yield-late-spawn".into(), objs: o1.clone(), threads: vec![vec![K::Spawn { t: 1 }.into(), K::Yield.into(), K::Spawn { t: 2 }.into(), fadd(0, 1, Sc), fadd(0, 1, Sc), K::Join { t: 1 }.into(), K::Join { t: 2 }.into()], vec![fadd(1, 1, Sc)], vec![fadd(0, 1, Sc)]] });
+    v
 }
 
 /// RACE-guarded: a conflicting access that only happens once a *relaxed* flag shows that a
@@ -3253,6 +3263,39 @@ pub fn lit_stale_acq(full: bool) -> Vec<Program> {
                 }
                 r.push(ld(0, Rlx));
                 out.push(with_main("LIT-stale-acq", atomics(3), vec![], vec![w.clone(), r], vec![], vec![]));
+            }
+        }
+    }
+    out
+}
+
+/// RACE-arc: only the *final* drop of an Arc acquires. T1 accesses a cell and drops its handle;
+/// T2, gated by a relaxed flag that T1 raises after its drop, drops its own handle and then
+/// accesses the cell. If another handle is still alive (main keeps one) T2's drop is not the
+/// final one and the two accesses race; if T2's drop is the final one they are ordered.
+pub fn race_arc_family() -> Vec<Program> {
+    let mut out = vec![];
+    for main_keeps in [true, false] {
+        for extra in [false, true] {
+            // `extra`: a fourth handle dropped early by T1 as well (count 4 -> ... )
+            for (a1, a2) in [(wr(0), rd(0)), (rd(0), wr(0)), (wr(0), wr(0))] {
+                let objs = Objs { atomics: vec![0], cells: 1, handles: 8, arcs: vec![None], ..Default::default() };
+                let mut pre: Vec<Op> = vec![K::ArcNew { h: 0, arc: 0 }.into(), K::ArcClone { from: 0, to: 2 }.into(), K::ArcClone { from: 0, to: 4 }.into()];
+                if extra {
+                    pre.push(K::ArcClone { from: 0, to: 6 }.into());
+                }
+                if !main_keeps {
+                    pre.push(K::ArcDrop { h: 0 }.into());
+                }
+                let mut t1: Vec<Op> = vec![a1.clone()];
+                if extra {
+                    t1.push(K::ArcDrop { h: 6 }.into());
+                }
+                t1.push(K::ArcDrop { h: 2 }.into());
+                t1.push(st(0, 1, Rlx));
+                let t2: Vec<Op> = vec![K::Await { a: 0, mo: Rlx, want: 1 }.into(), K::ArcDrop { h: 4 }.into(), a2.clone()];
+                let tail: Vec<Op> = if main_keeps { vec![K::ArcDrop { h: 0 }.into()] } else { vec![] };
+                out.push(with_main("RACE-arc", objs, pre, vec![t1, t2], vec![], tail));
             }
         }
     }
